@@ -7,7 +7,7 @@ From Coq Require Import ZArith List Bool Lia Permutation.
 Import ListNotations.
 Require Import Grist.Model.Deps Grist.Model.DepsSpec Grist.Model.DepsExec Grist.Model.CalcFlush.
 Require Import Grist.Proofs.DepsSpec_proofs Grist.Proofs.Deps_closure_proofs Grist.Proofs.Deps_inval_proofs
-               Grist.Proofs.Deps_order_proofs Grist.Proofs.CalcFlush_proofs.
+               Grist.Proofs.Deps_order_proofs Grist.Proofs.CalcFlush_proofs Grist.Proofs.Deps_order_all_proofs.
 Open Scope Z_scope.
 
 (* the same edges stored/visited in any order give the same recompute_map (as a set of cells), when
@@ -29,6 +29,29 @@ Theorem C30_invalidate_keeps_closed :
     invalidate_deps fuel g n (Rows l) incl = Some g' ->
     closed_cells (g_edges g) (g_rel g) (g_map g').
 Proof. exact invalidate_keeps_closed. Qed.
+
+(* the same for an ALL_ROWS start (schema edits: clear_dependencies happens in the middle of the walk), when the
+   fully dirty columns of the map have their dependents fully dirty (true of the empty map) *)
+Theorem C30_invalidate_all_order_irrelevant :
+  forall E1 E2 R M N1 N2 n0 inc f1 f2 g1 g2,
+    (forall e, In e E1 <-> In e E2) -> owner_ok E1 -> Deps_order_all_proofs.closed_all E1 R M ->
+    invalidate_deps f1 (mkG E1 R M N1) n0 AllRows inc = Some g1 ->
+    invalidate_deps f2 (mkG E2 R M N2) n0 AllRows inc = Some g2 ->
+    forall c, in_map (g_map g1) c = in_map (g_map g2) c.
+Proof. exact Deps_order_all_proofs.invalidate_all_order_irrelevant. Qed.
+
+Example C30_ex_closed_all_empty : forall E R, Deps_order_all_proofs.closed_all E R (fun _ => None).
+Proof. exact Deps_order_all_proofs.closed_all_empty. Qed.
+
+Example C30_ex_invalidate_all_orders :
+  let R := mkR (fun _ _ => []) (fun _ _ => []) (fun _ _ => []) in
+  match invalidate_deps 9 (mkG [(2, 1, RId); (3, 1, RSingle); (4, 2, RRef 2)] R (fun _ => None) []) 1 AllRows true,
+        invalidate_deps 9 (mkG [(4, 2, RRef 2); (3, 1, RSingle); (2, 1, RId)] R (fun _ => None) []) 1 AllRows true with
+  | Some g1, Some g2 => map (fun c => in_map (g_map g1) c) [(1, 7); (2, 7); (3, 7); (4, 7)] = [true; true; false; true]
+                        /\ map (fun c => in_map (g_map g2) c) [(1, 7); (2, 7); (3, 7); (4, 7)] = [true; true; false; true]
+  | _, _ => False
+  end.
+Proof. cbn. split; reflexivity. Qed.
 
 (* flush_sorted_canonical: the calc flush is independent of the insertion order of the tables ... *)
 Theorem C30_flush_sorted_canonical :
